@@ -257,7 +257,7 @@ def bytes_repeat(E, b, n):
 def list_repeat(E, item, n, node):
     nt = z3_int(n)
     if item is None:
-        raise Unsupported("[None] * n needs a typed model (line %d)" % getattr(node, "lineno", 0))
+        return NoneRepeat(nt)     # typed when it is stored into a field with a declared list-of-optional type
     sv = E.to_sv(item)
     return E.new_symlist(SV(L.lrepeat(sv.ty)(sv.t, nt), TList(sv.ty)))
 
@@ -783,6 +783,14 @@ def abc_mixin(E, recv, cd, name, args, kwargs, fr, node):
         cnode, _, _ = E.repo.find(k)
         for b in cnode.bases:
             bases.add(ast.unparse(b).split(".")[-1])
+    # a library mixin method restated as verified ghost code (contract with a body under the class's key)
+    for k in class_mro(E, cd.key):
+        ck = "%s.%s" % (k, name)
+        c = CONTRACTS.get(ck)
+        if c is not None and c.body is not None and bases & {"Sequence", "Mapping", "MutableMapping", "MutableSequence"}:
+            E.trusted_used.add("B5:collections.abc mixin %s == the ghost body verified under %s" % (name, ck))
+            fnode = ast.parse(c.body).body[0]
+            return call_contract(E, c, ck, fnode, None, None, [recv] + list(args), kwargs, fr, node)
     if not bases & {"Mapping", "MutableMapping"}:
         return NOATTR
     line = getattr(node, "lineno", 0)
